@@ -3,6 +3,8 @@
 // Lines written to <cases> (read by `psvdriver C17`), one result line each in <impl>:
 //   B order nknots knotbits{nknots} npts xbits{npts}            bsplinebasis(), dense, bit patterns (column-major as stored)
 //   S ndim ranges{ndim} nent (idx{ndim} val)*nent dim nrow ncol b{nrow*ncol row-major}   slicemultiply() on small integers (exact in double)
+//   T (same fields as S)   slicemultiply() on a sparse tensor with large index ranges (flattened section of 2^16 .. 2^22 columns:
+//        the int/unsigned index arithmetic beyond 16 bits); result compared entry by entry, not densely
 //   G ndim (order nknots stride knotbits{nknots})*ndim ncoef coefbits32{ncoef} (npts xbits{npts})*ndim
 //        grideval through the C++ entry point and the C wrapper + pointwise ndsplineeval at every grid point
 #include "common.h"
@@ -109,6 +111,59 @@ static void emit_slice(Rng& r, cholmod_common* c) {
   cholmod_l_free_dense(&bd, c);
   int rc = slicemultiply(&a, b, dim, c);
   stats[rc == 0 ? "S_ok" : "S_dim_mismatch"]++;
+  if (rc != 0) fprintf(fi, "fail");
+  else print_nd(fi, &a);
+  fprintf(fi, "\n");
+  cholmod_l_free_sparse(&b, c);
+  ndsparse_free(&a);
+}
+
+// slicemultiply with large index ranges and few entries: exercises the int / unsigned / long index arithmetic
+// (stride products up to ~4e6; CHOLMOD needs one long per column of the flattened section, which bounds what can be run)
+static void emit_slice_wide(Rng& r, cholmod_common* c) {
+  int nd = r.range(2, 4);
+  int dim = r.range(0, nd - 1);
+  std::vector<unsigned> ranges(nd);
+  // target number of columns 2^16 .. 2^22, spread over the other dimensions
+  double target = std::ldexp(1.0, r.range(16, 22)) * (0.5 + r.unit());
+  int others = nd - 1;
+  for (int d = 0; d < nd; d++) {
+    if (d == dim) { ranges[d] = r.range(1, 6); continue; }
+    double f = std::pow(target, 1.0 / others) * (0.6 + 0.8 * r.unit());
+    ranges[d] = (unsigned)std::max(2.0, std::floor(f));
+  }
+  double cols = 1; for (int d = 0; d < nd; d++) if (d != dim) cols *= ranges[d];
+  while (cols > 6.0e6) { for (int d = 0; d < nd; d++) if (d != dim && ranges[d] > 2) { cols /= ranges[d]; ranges[d] = ranges[d] / 2 + 1; cols *= ranges[d]; } }
+  int nent = r.range(1, 8);
+  int nrow = ranges[dim], ncol = r.range(1, 3);
+  ::ndsparse a;
+  ndsparse_allocate(&a, nent, nd);
+  fprintf(fc, "T %d", nd);
+  for (int d = 0; d < nd; d++) { a.ranges[d] = ranges[d]; fprintf(fc, " %u", ranges[d]); }
+  fprintf(fc, " %d", nent);
+  for (int i = 0; i < nent; i++) {
+    for (int d = 0; d < nd; d++) {
+      int m = r.range(0, 5);   // extremes on purpose: largest index gives the largest flattened column
+      a.i[d][i] = m == 0 ? ranges[d] - 1 : m == 1 ? 0 : r.below(ranges[d]);
+      fprintf(fc, " %u", a.i[d][i]);
+    }
+    a.x[i] = r.range(-9, 9);
+    fprintf(fc, " %d", (int)a.x[i]);
+  }
+  fprintf(fc, " %d %d %d", dim, nrow, ncol);
+  cholmod_dense* bd = cholmod_l_zeros(nrow, ncol, CHOLMOD_REAL, c);
+  for (int i = 0; i < nrow; i++)
+    for (int j = 0; j < ncol; j++) {
+      int v = r.coin(1, 4) ? 0 : r.range(-5, 5);
+      ((double*)bd->x)[j * nrow + i] = v;
+      fprintf(fc, " %d", v);
+    }
+  fprintf(fc, "\n");
+  cholmod_sparse* b = cholmod_l_dense_to_sparse(bd, 1, c);
+  cholmod_l_free_dense(&bd, c);
+  int rc = slicemultiply(&a, b, dim, c);
+  stats[rc == 0 ? "T_ok" : "T_fail"]++;
+  { char key[40]; snprintf(key, sizeof key, "T_cols_2^%d", (int)std::floor(std::log2(cols))); stats[key]++; }
   if (rc != 0) fprintf(fi, "fail");
   else print_nd(fi, &a);
   fprintf(fi, "\n");
@@ -260,6 +315,7 @@ int main(int argc, char** argv) {
     if (i % 2 == 0) emit_basis(r, &c);
     emit_slice(r, &c);
     emit_slice(r, &c);
+    if (i % 3 == 1) emit_slice_wide(r, &c);
   }
   cholmod_l_finish(&c);
   fclose(fc); fclose(fi);
